@@ -317,7 +317,7 @@ PROPS = {
                    "exercised on a fresh instance). With new ids the last step relies on c15_replace_consistent plus the correspondence run. The YAML text is not modelled.",
     },
     "C02": {
-        "required_theorems": ["c02_no_write_lost", "c02_points_converge", "c02_exchange_converges_on_stores", "c02_equal_hash_is_skipped", "c02_agreed_node_is_quiet", "c02_pass_is_local", "c02_pass_converges_where_hash_is_faithful", "c02_stored_rows_on_every_store", "c02_missing_subtree_is_sent", "c02_missing_downstream_arrives_one_level_per_pass", "gen_sync_pinned",
+        "required_theorems": ["c02_no_write_lost", "c02_points_converge", "c02_exchange_converges_on_stores", "c02_equal_hash_is_skipped", "c02_agreed_node_is_quiet", "c02_pass_is_local", "c02_pass_converges_where_hash_is_faithful", "c02_forwarding_order_irrelevant", "c02_stored_rows_on_every_store", "c02_missing_subtree_is_sent", "c02_missing_downstream_arrives_one_level_per_pass", "gen_sync_pinned",
                               "c02_loop_catch_up_while_connected", "c02_loop_forward_iff_connected", "c02_loop_redial_pending", "gen_syncloop_pinned"],
         "n": {"quick": 300, "thorough": 2000},
         "thorough_seeds": 3,
@@ -334,7 +334,7 @@ PROPS = {
                      "time.Now() readings inside a pass are a parameter (wall : Int -> Int) of the model and of the theorems",
                      "the syncCount bookkeeping points the client writes to its own node are ignored"],
         "assumptions": [],
-        "partial": "proved: a pass never loses or reverts a write on either side (any tree, any hashes); where the pass performs the exchange for a node, both stores hold the newest point per identity afterwards (on the store model itself); an agreed node is left alone; and for two stores that hold the same nodes below a node n (forest-shaped, nothing missing on either side), ONE pass makes the points of n, of every node below it and of every edge between them agree, provided the hash comparison is faithful on the states that follow (equal hashes only over agreeing subtrees) — c02_pass_converges_where_hash_is_faithful, with c02_pass_is_local (nothing outside the subtree is touched, no edge inserted). The row premises of these theorems (stored rows, one row per identity, no node type among edge rows) are shown to hold on every store reachable by write requests (c02_stored_rows_on_every_store); distinct time stamps per identity are the property's own premise. Faithfulness is a hypothesis because it is false in general (two open findings: changes that cancel in the XOR hash): the theorem says that an equal-hash comparison is the ONLY way a difference survives a pass over equal trees. Where a node is missing upstream — the node the pass was started for, or a child — c02_missing_subtree_is_sent proves that sendNodesRemote copies the whole live subtree: every node at every depth with exactly the local points, every edge with exactly the local edge points (plus the mark 'not deleted' where the local edge has no deletion mark), nothing else upstream touched, for a forest of stored rows whose ids upstream does not know yet, with the recursion budget in use shown to reach every depth (belowD_depth). A node missing DOWNSTREAM is different in the code: sendNodesLocal lists the children in the LOCAL store, so it sends that one node and the subtree below it arrives one level per pass (c02_missing_downstream_arrives_one_level_per_pass; confirmed on the implementation: three levels created upstream need three passes) — the instances still converge, so this is an observation about latency, not a violation. Not proved: ids that upstream already knows somewhere else (mirrors, moved nodes), and the combination of both cases in one pass (an equal-tree part and a missing part below the same node): these are covered by c02_no_write_lost and the correspondence run. The loop around the pass is proved to run a pass at every (re)connection and periodically while the link is reported up, to forward local writes exactly then, and to keep a reconnection pending (c02_loop_*); the downward real-time path is covered by the end-to-end cases only",
+        "partial": "proved: a pass never loses or reverts a write on either side (any tree, any hashes); where the pass performs the exchange for a node, both stores hold the newest point per identity afterwards (on the store model itself); an agreed node is left alone; and for two stores that hold the same nodes below a node n (forest-shaped, nothing missing on either side), ONE pass makes the points of n, of every node below it and of every edge between them agree, provided the hash comparison is faithful on the states that follow (equal hashes only over agreeing subtrees) — c02_pass_converges_where_hash_is_faithful, with c02_pass_is_local (nothing outside the subtree is touched, no edge inserted). The row premises of these theorems (stored rows, one row per identity, no node type among edge rows) are shown to hold on every store reachable by write requests (c02_stored_rows_on_every_store); distinct time stamps per identity are the property's own premise. Faithfulness is a hypothesis because it is false in general (two open findings: changes that cancel in the XOR hash): the theorem says that an equal-hash comparison is the ONLY way a difference survives a pass over equal trees. Where a node is missing upstream — the node the pass was started for, or a child — c02_missing_subtree_is_sent proves that sendNodesRemote copies the whole live subtree: every node at every depth with exactly the local points, every edge with exactly the local edge points (plus the mark 'not deleted' where the local edge has no deletion mark), nothing else upstream touched, for a forest of stored rows whose ids upstream does not know yet, with the recursion budget in use shown to reach every depth (belowD_depth). A node missing DOWNSTREAM is different in the code: sendNodesLocal lists the children in the LOCAL store, so it sends that one node and the subtree below it arrives one level per pass (c02_missing_downstream_arrives_one_level_per_pass; confirmed on the implementation: three levels created upstream need three passes) — the instances still converge, so this is an observation about latency, not a violation. Not proved: ids that upstream already knows somewhere else (mirrors, moved nodes), and the combination of both cases in one pass (an equal-tree part and a missing part below the same node): these are covered by c02_no_write_lost and the correspondence run. The loop around the pass is proved to run a pass at every (re)connection and periodically while the link is reported up, to forward local writes exactly then, and to keep a reconnection pending (c02_loop_*); for the real-time path, c02_forwarding_order_irrelevant shows that once every point has reached both stores the rows agree whatever the interleaving, batching and re-delivery on either side (C01's order-independence read for two instances); that NATS delivers every forwarded message, and the downward subscriptions, are covered by the end-to-end cases only",
     },
     "C04": {
         "required_theorems": ["c04_recovered_consistent", "c04_all_or_nothing", "c04_acked_not_lost", "c04_batch_present", "gen_tx_pinned", "gen_pragmas_pinned"],
